@@ -9,9 +9,9 @@
     * environ = every `NAME=value` string followed by one NUL (`renderEnv`);
     * exe/cwd = a path, possibly followed by NUL garbage, possibly with ` (deleted)` appended.
 
-  `none` as a result means: the property is silent about this situation (an OS error on a
-  source other than the ones the statement names); such cases are compared against the
-  model only.
+  `none` as a result means: the property is silent about this situation (ENOENT on the
+  cmdline/environ file of a LIVE process whose `/proc/<pid>` still exists; an existence test
+  that is itself denied); such cases are compared against the model only.
 -/
 import PsutilModel.Model.C12
 namespace Psutil.C12.Spec
@@ -53,12 +53,20 @@ def cmdlineOf (zombie : Bool) (data : Bytes) : Res (List Bytes) :=
   if data = [] then (if zombie then .error .zombieProcess else .ok [])
   else .ok (args data)
 
+/-- an OS error when opening `/proc/<pid>/cmdline` or `…/environ` while `/proc/<pid>` exists, in
+    psutil's documented vocabulary: EACCES = AccessDenied; ESRCH ("no such process") = the
+    process died under our feet: NoSuchProcess, ZombieProcess if its entry says `Z`; ENOENT on
+    a zombie = ZombieProcess. ENOENT on a single file of a live process: the property is silent. -/
+def fileErr (w : World) : Err → Option Exc
+  | .eacces => some .accessDenied
+  | .esrch => some (if w.zombie then .zombieProcess else .noSuchProcess)
+  | .enoent => if w.zombie then some .zombieProcess else none
+
 def cmdline (w : World) : Option (Res (List Bytes)) :=
   if !w.dirExists then some (.error .noSuchProcess)
   else match w.cmdline with
     | .data d => some (cmdlineOf w.zombie d)
-    | .err .eacces => some (.error .accessDenied)
-    | .err _ => none
+    | .err e => (fileErr w e).map .error
 
 /-! ### environ -/
 
@@ -96,8 +104,7 @@ def environ (w : World) : Option (Res Dict) :=
   if !w.dirExists then some (.error .noSuchProcess)
   else match w.environ with
     | .data d => some (.ok (environOf d))
-    | .err .eacces => some (.error .accessDenied)
-    | .err _ => none
+    | .err e => (fileErr w e).map .error
 
 /-! ### exe / cwd links -/
 
@@ -132,28 +139,46 @@ def cwd (w : World) : Option (Res Bytes) := link w w.cwd
 
 /-! ### exe() front end: fallback and memory -/
 
+/-- what the guess from `cmdline()` gives: a path, nothing usable, or `cmdline()` itself fails -/
+inductive Guess
+  | path (p : Bytes)
+  | nothing
+  | fails (e : Exc)
+  deriving DecidableEq, Repr
+
 /-- `cmdline()[0]` if it is an absolute path to an executable regular file -/
-def guessOf (w : World) : Option (Option Bytes) :=
+def guessOf (w : World) : Option Guess :=
   match cmdline w with
   | some (.ok (a0 :: _)) =>
     let okPath := a0.head? = some 47 ∧ 0 ∉ a0 ∧ w.fs a0 = .file true
-    some (if okPath then some a0 else none)
-  | some (.ok []) => some none
-  | _ => none
+    some (if okPath then .path a0 else .nothing)
+  | some (.ok []) => some .nothing
+  | some (.error e) => some (.fails e)
+  | none => none
 
-/-- one uncached `exe()`: the answer, and whether the object remembers it -/
+/-- one uncached `exe()`: the answer, and whether the object remembers it.
+    * readable non-empty link: that path, remembered;
+    * link withheld (`''`): the guess if there is one, else `''` — also when `cmdline()` is
+      denied (the guess is merely unavailable) — remembered either way; if `cmdline()` says the
+      process is a zombie / gone, that error, nothing remembered;
+    * link denied: the guess if there is one, else AccessDenied (or the error of `cmdline()`);
+      nothing remembered;
+    * any other error of the link (zombie, gone): that error. -/
 def exeOnce (w : World) : Option (Res Bytes × Bool) :=
   match link w w.exe with
   | some (.ok p) =>
     if p ≠ [] then some (.ok p, true)
     else match guessOf w with
-      | some (some g) => some (.ok g, true)
-      | some none => some (.ok [], true)
+      | some (.path g) => some (.ok g, true)
+      | some .nothing => some (.ok [], true)
+      | some (.fails .accessDenied) => some (.ok [], true)
+      | some (.fails e) => some (.error e, false)
       | none => none
   | some (.error .accessDenied) =>
     match guessOf w with
-    | some (some g) => some (.ok g, false)
-    | some none => some (.error .accessDenied, false)
+    | some (.path g) => some (.ok g, false)
+    | some .nothing => some (.error .accessDenied, false)
+    | some (.fails e) => some (.error e, false)
     | none => none
   | some (.error e) => some (.error e, false)
   | none => none
@@ -193,13 +218,26 @@ def nameRule (comm : Bytes) (argv0 : Option Bytes) : Bytes :=
 def name (w : World) : Option (Res Bytes) :=
   if !w.dirExists then some (.error .noSuchProcess)
   else if w.comm.length < commMax then some (.ok w.comm)
-  else match w.cmdline with
-    | .data d =>
-      match cmdlineOf w.zombie d with
-      | .ok argv => some (.ok (nameRule w.comm argv.head?))
-      | .error _ => some (.ok w.comm)          -- a zombie keeps the kernel's name
-    | .err .eacces => some (.ok w.comm)
-    | .err _ => none
+  else match cmdline w with
+    | some (.ok argv) => some (.ok (nameRule w.comm argv.head?))
+    | some (.error .accessDenied) => some (.ok w.comm)     -- cmdline unreadable: the kernel's name
+    | some (.error .zombieProcess) => some (.ok w.comm)    -- a zombie keeps the kernel's name
+    | some (.error e) => some (.error e)                   -- the process is gone
+    | none => none
+
+/-! ### username() / terminal(): a zombie still has an owner and a controlling terminal -/
+
+/-- the name the user database gives the REAL uid, the uid in decimal (`Base.renderDec`, the inverse of
+    decimal parsing) if it has none —
+    whether or not the process is a zombie -/
+def username (w : World) : Option (Res Bytes) :=
+  if !w.dirExists then some (.error .noSuchProcess)
+  else some (.ok (match w.users w.uid with | some n => n | none => renderDec w.uid))
+
+/-- the terminal device whose number is `tty_nr`, `None` if there is none — zombie or not -/
+def terminal (w : World) : Option (Res (Option Bytes)) :=
+  if !w.dirExists then some (.error .noSuchProcess)
+  else some (.ok (w.ttys w.tty))
 
 /-! ### one call, given the worlds of the earlier `exe()` calls on the same object -/
 
@@ -209,5 +247,7 @@ def call (exeWorlds : List World) (w : World) : Call → Option Out
   | .exe => (exeAfter exeWorlds w).map .str
   | .cwd => (cwd w).map .str
   | .name => (name w).map .str
+  | .username => (username w).map .str
+  | .terminal => (terminal w).map .opt
 
 end Psutil.C12.Spec
